@@ -27,6 +27,13 @@ func multiDocs(r *Rng) [][]byte {
 	out = append(out, []byte("JSIGHT 0.3\nMACRO @a\n(\n  PASTE @b\n)\nMACRO @b\n(\n  PASTE @a\n)\nMACRO @c\n(\n  PASTE @d\n)\nMACRO @d\n(\n  PASTE @c\n)\n"))
 	// Path schema with several unused properties
 	out = append(out, []byte("JSIGHT 0.3\nURL /a/{id}\n  Path\n  {\"id\": 1, \"zz\": 2, \"aa\": 3, \"mm\": 4}\n  GET\n    200 any\n"))
+	// … whose names tie under the comparisons an "ordered" listing might use (letter case, length, a common prefix)
+	out = append(out, []byte("JSIGHT 0.3\nURL /a/{id}\n  Path\n  {\"id\": 1, \"Name\": 2, \"name\": 3, \"NAME\": 4, \"nAme\": 5}\n  GET\n    200 any\n"))
+	out = append(out, []byte("JSIGHT 0.3\nURL /a/{id}\n  Path\n  {\"id\": 1, \"ab\": 2, \"ba\": 3, \"aB\": 4, \"Ba\": 5, \"a_\": 6}\n  GET\n    200 any\n"))
+	out = append(out, []byte("JSIGHT 0.3\nMACRO @Aa\n(\n  PASTE @Aa\n)\nMACRO @aa\n(\n  PASTE @aa\n)\nMACRO @AA\n(\n  PASTE @AA\n)\nMACRO @aA\n(\n  PASTE @aA\n)\n"))
+	out = append(out, []byte("JSIGHT 0.3\nTYPE @t\n{\n  \"a\": 1, // {enum: @Xx}\n  \"b\": 2, // {enum: @xx}\n  \"c\": 3 // {enum: @XX}\n}\n"))
+	out = append(out, []byte("JSIGHT 0.3\nTYPE @t\n{\"a\": @Mm, \"b\": @mm, \"c\": @MM, \"d\": @mM}\nGET /x\n  200 @mM\n"))
+	out = append(out, []byte("JSIGHT 0.3\nGET /a/{X}\n  200 any\nGET /A/{x}\n  200 any\nPOST /a/{x}\n  200 any\nPOST /A/{X}\n  200 any\n"))
 	// one path with two different duplicated parameters / two empty ones
 	out = append(out, []byte("JSIGHT 0.3\nURL /c/{id}/{name}/f/{id}/{name}\n  GET\n    200 any\n"))
 	out = append(out, []byte("JSIGHT 0.3\nGET /c/{a}/{b}/{c}/{a}/{b}/{c}\n  200 any\n"))
